@@ -20,6 +20,15 @@ LEAN_MODULE = "NixModel.Props.C01"
 THEOREMS = [
     "Nix.C01.C01_append_concat",
     "Nix.C01.C01_append_refused",
+    "Nix.C01.C01_history",
+    "Nix.C01.C01_last_write_wins",
+    "Nix.C01.C01_dtype_shape_stable",
+    "Nix.C01.C01_elements_typed",
+    "Nix.C01.C01_assign_exact",
+    "Nix.C01.C01_assign_exact_sources",
+    "Nix.C01.C01_create_exact",
+    "Nix.C01.C01_create_empty",
+    "Nix.C01.C01_compression_transparent",
     "Nix.C01.C01_compression_table",
 ]
 ASSUMPTIONS = [
